@@ -433,6 +433,7 @@ def text_document(t):
 
 def write_single(t, model, eol=b"\n"):
     fw = FileWriter(eol=eol)
+    fw.obj_tight = t.coin(30, 100, "obj.tight")  # 1 0 obj<<...>>: no white space behind "obj" where none is needed
     for i in sorted(model):
         fw.add_object(i, to_obj(model[i]))
         if t.coin(20, 100, "dpad"):
